@@ -334,23 +334,26 @@ Qed.
 Example C05_code_ok_nonvacuous : Nat.leb (qpeak ex_segs) 2 = true.
 Proof. vm_compute. reflexivity. Qed.
 
-(* an array entry addressed through an index that is itself an array entry (Future-indexed Future):
-   add of a constant, add of another entry, measurement into it; direct evaluation and the run of the
-   lowered, flattened code agree on the data array (30 + 5 + 10, then overwritten by the outcome 1).
-   These two constructors are outside `wfs`: correspondence and oracle cover them, not the composed theorem *)
+(* constructs moved inside the class of the composed theorem in the third round: an array entry
+   addressed through another entry (Future-indexed Future: add of a constant, add of another entry,
+   measurement into it), a loop on a register named by the program (loop_register=R5), a register
+   outcome as add operand.  The segment is in `bwfs`; direct evaluation and the run of the lowered,
+   flattened code agree on the data array: 30 + 5 + 10 -> outcome 1 -> + 0 + 1 (loop) + 1 (register) *)
 Definition ex_nested : block :=
   blk [SNewArray 0 3 (Some [Some 10%Z; Some 20%Z; Some 30%Z]); SNewArray 1 1 (Some [Some 2%Z]);
        SFutAddX 0 1 0 (AInt 5) None; SFutAddX 0 1 0 (AFut 0 (IxC 0)) None;
-       SNewQubit 0; SGate GX 0; SMeasFutX 0 false 0 1 0; SFlush].
+       SNewQubit 0; SGate GX 0; SMeasFutX 0 true 0 1 0;
+       SLoop false 0 (Some 5%nat) 0 2 1 (blk [SFutAdd 0 (IxC 2) (ALoop 0) None]);
+       SMeasReg 0 false 0; SFutAdd 0 (IxC 2) (AReg 0) None].
 
-Example C05_nested_future_index_nonvacuous :
-  (match eval_prog ex_nested [1%Z] with Some e => alookup 0%nat (e_arr e) | None => None end)
-    = Some [Some 10%Z; Some 20%Z; Some 1%Z] /\
-  (match lower_prog true ex_nested with
-   | Ok (bs, _) => match run_blocks 200 bs (m0 [1%Z]) with RDone s => m_arr s 0%nat | _ => None end
+Example C05_widened_class_nonvacuous :
+  bwfs ex_nested = true /\
+  (match eval_prog (prog_of [ex_nested]) [1%Z; 1%Z] with Some e => alookup 0%nat (e_arr e) | None => None end)
+    = Some [Some 10%Z; Some 20%Z; Some 3%Z] /\
+  (match lower_prog true (prog_of [ex_nested]) with
+   | Ok (bs, _) => match run_blocks 400 bs (m0 [1%Z; 1%Z]) with RDone s => m_arr s 0%nat | _ => None end
    | Err _ => None
-   end) = Some [Some 10%Z; Some 20%Z; Some 1%Z] /\
-  bwfs ex_nested = false.
+   end) = Some [Some 10%Z; Some 20%Z; Some 3%Z].
 Proof. vm_compute. repeat split; reflexivity. Qed.
 
 Print Assumptions C05_flatten_correct.
